@@ -109,6 +109,7 @@ def body (j : Json) : P Body := do
     pure (.table rows (← dec (← field j "dflt")))
   | "fail" => pure (.fail (← str (← field j "t")))
   | "failIf" => pure (.failIf (← int (← field j "k")) (← str (← field j "t")))
+  | "failGe" => pure (.failGe (← int (← field j "k")) (← str (← field j "t")))
   | "nonBool" => pure .nonBool
   | "wrongArity" => pure (.wrongArity (← str (← field j "t")) (← nat (← field j "k")))
   | "handler" => match fieldD j "k" .null with
